@@ -143,20 +143,67 @@ Proof.
   destruct ok; cbn; [rewrite IH|]; exact H.
 Qed.
 
+Lemma exchange_accounts c nt acct thr parts poly cl :
+  accounts_of (snd (exchange c nt acct thr parts poly cl)) = accounts_of cl.
+Proof.
+  unfold exchange.
+  pose proof (prepare_all_accounts acct thr parts poly (until (nt_lost_prepare nt) parts) cl) as A1.
+  destruct (prepare_all acct thr parts poly _ cl) as [ok1 cl1]. cbn [snd] in A1.
+  destruct (negb _); [exact A1|].
+  pose proof (execute_all_accounts c (nt_swap nt) acct (until (nt_lost_execute nt) parts) cl1) as A2.
+  destruct (execute_all c (nt_swap nt) acct _ cl1) as [ok2 cl2]. cbn [snd] in *. now rewrite A2.
+Qed.
+
 (* any failed prepare or execute ends the generation with an error before any commit: nobody holds an account *)
-Theorem failed_exchange_creates_nothing c tm acct thr parts poly cl :
-  (fst (prepare_all acct thr parts poly parts cl) = false \/
-   fst (execute_all c tm acct parts (snd (prepare_all acct thr parts poly parts cl))) = false) ->
-  fst (generate c tm acct thr parts poly cl) = DErr /\
-  accounts_of (snd (generate c tm acct thr parts poly cl)) = accounts_of cl.
+Theorem failed_exchange_creates_nothing c nt acct thr parts poly cl :
+  fst (exchange c nt acct thr parts poly cl) = false ->
+  fst (generate c nt acct thr parts poly cl) = DErr /\
+  accounts_of (snd (generate c nt acct thr parts poly cl)) = accounts_of cl.
 Proof.
   intros H. unfold generate. destruct (negb (threshold_ok _ _)); [auto|].
-  pose proof (prepare_all_accounts acct thr parts poly parts cl) as A1.
-  destruct (prepare_all acct thr parts poly parts cl) as [ok1 cl1]. cbn [fst snd] in *.
-  destruct ok1; cbn [negb]; [|auto].
-  pose proof (execute_all_accounts c tm acct parts cl1) as A2.
-  destruct (execute_all c tm acct parts cl1) as [ok2 cl2]. cbn [fst snd] in *.
-  destruct H as [H|H]; [discriminate|]. subst ok2. cbn [negb fst snd]. split; [reflexivity|]. now rewrite A2.
+  pose proof (exchange_accounts c nt acct thr parts poly cl) as A.
+  destruct (exchange c nt acct thr parts poly cl) as [ok cl2]. cbn [fst snd] in *. subst ok. cbn. auto.
+Qed.
+
+Lemma until_length {A} (f : A -> bool) l : (List.length (until f l) <= List.length l)%nat.
+Proof. induction l as [|x l IH]; cbn; auto. destruct (f x); cbn; lia. Qed.
+Lemma until_full {A} (f : A -> bool) l : List.length (until f l) = List.length l -> until f l = l /\ forall x, In x l -> f x = false.
+Proof.
+  induction l as [|x l IH]; cbn; [intros _; split; [auto|contradiction]|].
+  destruct (f x) eqn:E; cbn; [discriminate|]. intros H. injection H as H. destruct (IH H) as [I1 I2].
+  split; [now rewrite I1|]. intros y [<-|Hy]; auto.
+Qed.
+Lemma until_lost {A} (f : A -> bool) l x : In x l -> f x = true -> (List.length (until f l) =? List.length l)%nat = false.
+Proof.
+  intros Hin Hx. apply Nat.eqb_neq. intros E. destruct (until_full f l E) as [_ H]. rewrite (H x Hin) in Hx. discriminate.
+Qed.
+
+(* the ways an exchange fails: a prepare or an execute message that does not get through (lost, or
+   answered by an error), a participant that refuses to prepare, a swap that fails *)
+Theorem lost_prepare_fails c nt acct thr parts poly cl p :
+  In p parts -> nt_lost_prepare nt p = true -> fst (exchange c nt acct thr parts poly cl) = false.
+Proof.
+  intros Hin Hl. unfold exchange. destruct (prepare_all _ _ _ _ _ _) as [ok1 cl1].
+  rewrite (until_lost _ _ p Hin Hl), andb_false_r. reflexivity.
+Qed.
+Theorem lost_execute_fails c nt acct thr parts poly cl p :
+  In p parts -> nt_lost_execute nt p = true -> fst (exchange c nt acct thr parts poly cl) = false.
+Proof.
+  intros Hin Hl. unfold exchange. destruct (prepare_all _ _ _ _ _ _) as [ok1 cl1].
+  destruct (negb _); [reflexivity|]. destruct (execute_all _ _ _ _ _) as [ok2 cl2].
+  cbn [fst]. rewrite (until_lost _ _ p Hin Hl), andb_false_r. reflexivity.
+Qed.
+Theorem refused_prepare_fails c nt acct thr parts poly cl :
+  fst (prepare_all acct thr parts poly (until (nt_lost_prepare nt) parts) cl) = false ->
+  fst (exchange c nt acct thr parts poly cl) = false.
+Proof. intros H. unfold exchange. destruct (prepare_all _ _ _ _ _ _) as [ok1 cl1]. cbn in H. subst ok1. reflexivity. Qed.
+Theorem failed_swap_fails c nt acct thr parts poly cl :
+  fst (execute_all c (nt_swap nt) acct (until (nt_lost_execute nt) parts)
+         (snd (prepare_all acct thr parts poly (until (nt_lost_prepare nt) parts) cl))) = false ->
+  fst (exchange c nt acct thr parts poly cl) = false.
+Proof.
+  intros H. unfold exchange. destruct (prepare_all _ _ _ _ _ _) as [ok1 cl1]. cbn [snd] in H.
+  destruct (negb _); [reflexivity|]. destruct (execute_all _ _ _ _ _) as [ok2 cl2]. cbn in H. subst ok2. reflexivity.
 Qed.
 
 (* ---- arithmetic in the exponent ---- *)
@@ -490,11 +537,23 @@ Proof.
   - specialize (IH cl p reply). destruct (commit_all acct todo cl). cbn. intros [E|Hin]; [discriminate|auto].
 Qed.
 
+(* the exchange keeps the invariant *)
+Lemma exchange_inv c nt acct thr parts poly cl :
+  polys_ok c thr poly -> cluster_inv c cl -> cluster_inv c (snd (exchange c nt acct thr parts poly cl)).
+Proof.
+  intros Hp I. unfold exchange.
+  pose proof (prepare_all_inv c acct thr parts poly (until (nt_lost_prepare nt) parts) Hp cl I) as I1.
+  destruct (prepare_all acct thr parts poly _ cl) as [ok1 cl1]. cbn [snd] in I1.
+  destruct (negb _); [exact I1|].
+  pose proof (execute_all_inv c (nt_swap nt) acct (until (nt_lost_execute nt) parts) cl1 I1) as I2.
+  destruct (execute_all c (nt_swap nt) acct _ cl1) as [ok2 cl2]. exact I2.
+Qed.
+
 (* a successful generation: every listed participant holds the account, with the returned composite
    key, a share consistent with the account's vector, the threshold and participant list of the request *)
-Theorem generate_success c tm acct thr parts poly cl pk cl' :
+Theorem generate_success c nt acct thr parts poly cl pk cl' :
   check_len c = true -> cluster_inv c cl -> polys_ok c thr poly -> NoDup parts ->
-  generate c tm acct thr parts poly cl = (DOk pk, cl') ->
+  generate c nt acct thr parts poly cl = (DOk pk, cl') ->
   threshold_ok (List.length parts) thr = true /\
   forall p, In p parts ->
     exists n a, cfind p cl' = Some n /\ afind String.eqb acct (nd_accts n) = Some a /\
@@ -503,11 +562,8 @@ Theorem generate_success c tm acct thr parts poly cl pk cl' :
 Proof.
   intros Hc I Hp ND. unfold generate.
   destruct (threshold_ok (List.length parts) thr) eqn:Et; cbn [negb]; [|discriminate].
-  pose proof (prepare_all_inv c acct thr parts poly parts Hp cl I) as I1.
-  destruct (prepare_all acct thr parts poly parts cl) as [ok1 cl1]. cbn [snd] in I1.
-  destruct ok1; cbn [negb]; [|discriminate].
-  pose proof (execute_all_inv c tm acct parts cl1 I1) as I2.
-  destruct (execute_all c tm acct parts cl1) as [ok2 cl2]. cbn [snd] in I2.
+  pose proof (exchange_inv c nt acct thr parts poly cl Hp I) as I2.
+  destruct (exchange c nt acct thr parts poly cl) as [ok2 cl2]. cbn [snd] in I2.
   destruct ok2; cbn [negb]; [|discriminate].
   pose proof (commit_all_spec acct parts ND cl2) as Hs.
   destruct (commit_all acct parts cl2) as [cl3 replies] eqn:Ecm. cbn [fst snd] in Hs.
@@ -532,16 +588,13 @@ Proof.
 Qed.
 
 (* with the length check no contribution, however altered in flight, makes any instance index out of range *)
-Theorem generate_no_panic c tm acct thr parts poly cl :
+Theorem generate_no_panic c nt acct thr parts poly cl :
   check_len c = true -> cluster_inv c cl -> polys_ok c thr poly ->
-  fst (generate c tm acct thr parts poly cl) <> DPanic.
+  fst (generate c nt acct thr parts poly cl) <> DPanic.
 Proof.
   intros Hc I Hp. unfold generate. destruct (negb (threshold_ok _ _)); [cbn; discriminate|].
-  pose proof (prepare_all_inv c acct thr parts poly parts Hp cl I) as I1.
-  destruct (prepare_all acct thr parts poly parts cl) as [ok1 cl1]. cbn [snd] in I1.
-  destruct ok1; cbn [negb]; [|cbn; discriminate].
-  pose proof (execute_all_inv c tm acct parts cl1 I1) as I2.
-  destruct (execute_all c tm acct parts cl1) as [ok2 cl2]. cbn [snd] in I2.
+  pose proof (exchange_inv c nt acct thr parts poly cl Hp I) as I2.
+  destruct (exchange c nt acct thr parts poly cl) as [ok2 cl2]. cbn [snd] in I2.
   destruct ok2; cbn [negb]; [|cbn; discriminate].
   destruct (commit_all acct parts cl2) as [cl3 replies] eqn:Ecm.
   assert (Hnp : existsb (fun r => match snd r with DPanic => true | _ => false end) replies = false).
@@ -577,18 +630,18 @@ Definition poly3 (i : N) : list Z := [Z.of_N i * 1000 + 7; Z.of_N i + 3].
 Definition pad_vector : tamper := fun from to m => if (N.eqb from 1 && N.eqb to 2)%bool then Some (fst m, snd m ++ [0]) else Some m.
 
 Lemma legacy_long_vector_panics :
-  fst (generate {| check_len := false |} pad_vector "W/a" 2 [1; 2; 3]%N poly3 [mkn 1; mkn 2; mkn 3]) = DPanic.
+  fst (generate {| check_len := false |} (net_of pad_vector) "W/a" 2 [1; 2; 3]%N poly3 [mkn 1; mkn 2; mkn 3]) = DPanic.
 Proof. vm_compute. reflexivity. Qed.
 Lemma fixed_long_vector_rejected :
-  generate {| check_len := true |} pad_vector "W/a" 2 [1; 2; 3]%N poly3 [mkn 1; mkn 2; mkn 3] =
-  (DErr, snd (generate {| check_len := true |} pad_vector "W/a" 2 [1; 2; 3]%N poly3 [mkn 1; mkn 2; mkn 3])) /\
-  accounts_of (snd (generate {| check_len := true |} pad_vector "W/a" 2 [1; 2; 3]%N poly3 [mkn 1; mkn 2; mkn 3])) =
+  generate {| check_len := true |} (net_of pad_vector) "W/a" 2 [1; 2; 3]%N poly3 [mkn 1; mkn 2; mkn 3] =
+  (DErr, snd (generate {| check_len := true |} (net_of pad_vector) "W/a" 2 [1; 2; 3]%N poly3 [mkn 1; mkn 2; mkn 3])) /\
+  accounts_of (snd (generate {| check_len := true |} (net_of pad_vector) "W/a" 2 [1; 2; 3]%N poly3 [mkn 1; mkn 2; mkn 3])) =
   accounts_of [mkn 1; mkn 2; mkn 3].
 Proof. split; vm_compute; reflexivity. Qed.
 
 (* an honest 2-of-3 run (non-vacuity of generate_success) *)
 Lemma honest_run_example :
-  exists cl', generate {| check_len := true |} honest "W/a" 2 [1; 2; 3]%N poly3 [mkn 1; mkn 2; mkn 3] = (DOk 6021, cl') /\
+  exists cl', generate {| check_len := true |} (net_of honest) "W/a" 2 [1; 2; 3]%N poly3 [mkn 1; mkn 2; mkn 3] = (DOk 6021, cl') /\
   map (fun n => map (fun a => (ar_vvec (snd a), ar_share (snd a))) (nd_accts n)) cl' =
   [[([6021; 15], 6036)]; [([6021; 15], 6051)]; [([6021; 15], 6066)]].
 Proof. eexists. split; vm_compute; reflexivity. Qed.
@@ -611,3 +664,11 @@ Proof.
   - destruct (String.eqb_spec pn nm) as [->|E]; [|auto].
     exfalso. apply Hn. apply in_map_iff. exists (i, nm). auto.
 Qed.
+
+(* the inverse used by the model's signature recovery is one (spot checks; the recovery itself is
+   proved correct over an arbitrary field in Algebra/Shamir.v) *)
+Example finv_examples :
+  fmul 5 (finv 5) = 1 /\ fmul (qord - 1) (finv (qord - 1)) = 1 /\
+  fmul 18446744073709551615 (finv 18446744073709551615) = 1 /\
+  fmul 31415926535897932384626433832795028841971693993751058209749445923 (finv 31415926535897932384626433832795028841971693993751058209749445923) = 1.
+Proof. vm_compute. repeat split; reflexivity. Qed.
